@@ -68,3 +68,21 @@ pub fn with_resolved<'a, R>(
     resolver.resolve(root);
     f(root, errs, Some(&resolver))
 }
+
+/// Label spans per diagnostic: `lo:hi` joined by `;`, diagnostics joined by `,` (`-` when none).
+pub fn labels_str(d: &Diagnostics<'_>) -> String {
+    if d.diagnostics.is_empty() {
+        return "-".to_string();
+    }
+    d.diagnostics
+        .iter()
+        .map(|x| {
+            if x.labels.is_empty() {
+                "-".to_string()
+            } else {
+                x.labels.iter().map(|l| format!("{}:{}", l.span.start, l.span.end)).collect::<Vec<_>>().join(";")
+            }
+        })
+        .collect::<Vec<_>>()
+        .join(",")
+}
